@@ -29,13 +29,22 @@ var ctorTargets = map[string][]string{
 	"C09": {"sign/bdn.NewMask", "sign/cosi.NewMask"},
 	"C10": {"share/vss/pedersen.NewDealer", "share/vss/pedersen.NewVerifier", "share/vss/pedersen.newAggregator", "share/vss/pedersen.NewEmptyAggregator",
 		"share/vss/rabin.NewDealer", "share/vss/rabin.NewVerifier", "share/vss/rabin.newAggregator"},
-	"C11": {"share/dkg/pedersen.NewDistKeyHandler", "share/dkg/rabin.NewDistKeyGenerator"},
+	"C11": {"share/dkg/pedersen.NewDistKeyHandler", "share/dkg/rabin.NewDistKeyGenerator",
+		"share/dkg/pedersen.NewProtocol", "share/dkg/pedersen.newSet", "share/dkg/pedersen.NewStatusMatrix"},
 	"C12": {"sign/dss.NewDSS"},
+	"C07": {"share.NewPriPoly", "share.CoefficientsToPriPoly", "share.NewPubPoly", "(*share.PriPoly).Commit"},
+	"C08": {"sign/eddsa.NewEdDSA"},
+	"C13": {"proof/dleq.NewDLEQProof"},
+	"C14": {"proof.newHashProver", "proof.newHashVerifier"},
+	"C19": {"util/random.New"},
 }
 
 var mustWritePkgs = map[string][]string{
 	"C01": {"group/edwards25519", "group/edwards25519vartime", "group/p256", "group/mod", "pairing/bn256", "pairing/bn254",
 		"pairing/bls12381/kilic", "pairing/bls12381/circl", "pairing/bls12381/gnark"},
+	// the big-integer layer under mod.Int and the scalar types: every setter assigns its receiver on every
+	// returning path (an early return for "nothing to do" leaves the previous value in place)
+	"C02": {"compatible", "compatible/compatiblemod", "group/mod", "pairing/bls12381/circl", "pairing/bls12381/gnark", "pairing/bls12381/kilic"},
 }
 
 func mustWritePath(prop string) string {
@@ -45,8 +54,15 @@ func mustWritePath(prop string) string {
 func mustWriteTargets(c *Ctx, p *core.Prog, prop string) []*ssa.Function {
 	var out []*ssa.Function
 	switch prop {
-	case "C09", "C10", "C11", "C12":
+	case "C09", "C10", "C11", "C12", "C07", "C08", "C13":
 		return nil
+	case "C14":
+		// per-verifier channels and the proof's variable tables are set up on every path
+		for _, n := range []string{"(*proof.deniableVerifier).start", "(*proof.proof).init", "(*proof.deniableProver).run"} {
+			if fn := p.Fn(n); fn != nil {
+				out = append(out, fn)
+			}
+		}
 	case "C15":
 		for _, n := range []string{"(*shuffle.PairShuffle).Prove", "(*shuffle.SimpleShuffle).Prove", "(*shuffle.PairShuffle).Init", "(*shuffle.SimpleShuffle).Init"} {
 			if fn := p.Fn(n); fn != nil {
